@@ -495,6 +495,19 @@ def runBlocking (line : String) : String :=
           s!"{f1},{f2}\tseq,{pathName (blockingPath api ctx)},sound={sound}"
         | none => "blocked\tseq"
     | _, _ => "bad-op"
+  | some (.list [.atom "blslow", api, d, timeout, n, cap]) =>
+    -- a processor whose single attempt takes D behind `tokio::spawn`, a flush requested meanwhile: the duration is
+    -- not an input of the model (no label carries one) — `true`, with every item through its final attempt both when
+    -- the batch's watchers were notified and when the flush returned (C07.flush_sound on the final state)
+    match api? api, d.nat?, timeout.nat?, n.nat?, cap.nat?.filter (· ≥ 1) with
+    | some _, some d, some timeout, some n, some cap =>
+      if n = 0 ∨ n > cap ∨ cap > 64 ∨ d > 3600000 ∨ timeout < 10000 ∨ timeout > 600000 then "bad-op"
+      else match slowFlush (Cfg.real cap) n .ok timeout with
+        | some (r, atNotify, atReturn, s) =>
+          let sound := (List.range n).all fun i => s.finalised.contains (i + 1)
+          s!"{r},{atNotify},{atReturn}\tslow,d={if d > 30000 then "long" else "short"},sound={sound}"
+        | none => "blocked\tslow"
+    | _, _, _, _, _ => "bad-op"
   | some (.list [.atom "bl", api, .atom op, ctx, rx, cap, prefill, timeout]) =>
     match api? api, ctx? ctx, rxKind? rx, cap.nat?.filter (· ≥ 1), prefill.nat?, timeout? timeout with
     | some api, some ctx, some rx, some cap, some prefill, some timeout =>
